@@ -271,12 +271,16 @@ package jsonata
 //@   requires s != nil
 //@   ensures result == len(s.values)
 //@   assigns nothing
+// (an item of a result sequence is a value, never itself a result sequence: the evaluator's own container type must
+// not end up inside a result - C10 "never exposes evaluator-internal types")
 //@ func (*sequence).Append
-//@   props C01 C09
+//@   props C01 C09 C10
 //@   precise-append
 //@   requires s != nil
+//@   requires [C10:items-are-values-not-sequences] !typeis(v, "*sequence")
 //@   ensures len(s.values) == old(len(s.values)) + 1 && s.values[old(len(s.values))] == v && s.keepSingletons == old(s.keepSingletons)
 //@   ensures forall k in [0, old(len(s.values))): s.values[k] == old(s.values[k])
+//@   ensures arr(s.values) == old(arr(s.values)) || fresh(s.values)
 //@   assigns s.values, elems(s.values)
 //@ func (sequence).Value
 //@   props C01 C09 C10
@@ -294,6 +298,8 @@ package jsonata
 //@   ensures !r1 ==> r0 == nil
 //@   ensures !valid(v) ==> !r1
 //@   ensures isSeq(v) ==> (r1 && r0 == dyn(ifaceof(v), "*sequence"))
+//@   ensures r1 ==> (forall k in [0, len(r0.values)): !typeis(r0.values[k], "*sequence"))
+//@   ensures (valid(v) && canif(v) && !r1) ==> !typeis(ifaceof(v), "*sequence")
 //@   ensures arrKind(kind(res(v))) ==> !r1
 //@   assigns nothing
 //@   trusted
@@ -684,6 +690,60 @@ package jsonata
 //@   ensures [C20:own-map] (old(e.registry) != nil ==> e.registry == old(e.registry)) && (old(e.registry) == nil ==> (e.registry == nil || fresh(e.registry)))
 //@   assigns e.registry, deref(e.registry)
 //@   loop 0 invariant e.registry == old(e.registry) || (old(e.registry) == nil && fresh(e.registry) && e.registry != nil)
+
+// evalName / evalNameArray: field selection; over an array the field is selected from every member and the results
+// are collected in one flat sequence (also for arrays nested in arrays: the inner results are spliced in, the inner
+// sequence object itself is never an item)
+//@ func evalName
+//@   props C01 C09 C10
+//@   requires node != nil && ifaceable(data)
+//@   ensures r1 != nil ==> !valid(r0)
+//@   assigns heap
+//@ func evalNameArray
+//@   props C01 C09 C10
+//@   requires node != nil && arrKind(kind(data)) && canif(data)
+//@   ensures r1 != nil ==> !valid(r0)
+//@   ensures r1 == nil ==> isSeq(r0)
+//@   assigns heap
+//@   atcall[C01:field-of-every-member] evalName#0 requires callee_node == node && callee_data == at(data, i)
+//@   loop 0 invariant 0 <= i && i <= n && n == rvlen(data) && results != nil
+
+// --- C01 / C09: wildcard and descendant steps ----------------------------------------------------------------------------
+// flattenArray: all non-array members of a (nested) array, as one flat list; works on values that can be handed out
+// (Interface()-able): members reached through unexported struct fields must not be appended.
+//@ func flattenArray
+//@   props C01 C09
+//@   requires ifaceable(v)
+//@   ensures kind(result) == 23 && canif(result)
+//@   loop 0 invariant 0 <= i && i <= N && N == rvlen(v) && arrKind(kind(v)) && canif(v) && kind(results) == 23 && canif(results)
+// appendWildcard: the members of one object (or array) value go into the result sequence; array members are flattened;
+// values that cannot be handed out (unexported struct fields of Go values) are skipped - all of them, arrays included
+//@ func appendWildcard
+//@   props C01 C09
+//@   requires seq != nil
+//@   loop 0 invariant 0 <= i && i <= N && N == rvlen(v) && kind(v) == 23 && canif(v) && seq != nil
+// walkObjectValues: calls fn on every member of an array, object or struct (in the members' order)
+//@ func walkObjectValues
+//@   props C01 C09
+//@   requires fn != nil
+//@   assigns assumed heap
+//@   loop 0 invariant 0 <= i && i <= N && N == rvlen(v) && arrKind(kind(v))
+//@   loop 2 invariant 0 <= i && i <= N && kind(v) == 25
+//@ func evalWildcard$1
+//@   props C01 C09
+//@   requires results != nil
+//@ func evalWildcard
+//@   props C01 C09
+//@   ensures r1 == nil && valid(r0) && canif(r0)
+//@ func recurseDescendents$1
+//@   props C01 C09
+//@   requires seq != nil
+//@ func recurseDescendents
+//@   props C01 C09
+//@   requires seq != nil
+//@ func evalDescendent
+//@   props C01 C09
+//@   ensures r1 == nil && valid(r0) && canif(r0)
 
 // --- C11 / C14: literals, array and object constructors ---------------------------------------------------------------
 // JSON texts denote themselves: string / number / boolean literals evaluate to their value, null to the nil pointer
